@@ -1,7 +1,7 @@
 CONSTANTS
   MaxSteps = 12
   MaxLen = 3
-  PasteExec = FALSE
+  PasteExec = TRUE
   Orig = FALSE
 SPECIFICATION Spec
 INVARIANTS CursorInside Conform WordCmdsConform WordSane
